@@ -2,6 +2,7 @@
 from pyvc.runner import Prop, Bounded, script_replay
 from pyvc import effects
 import contracts.omen_level as ol
+import contracts.scorer as sc
 
 A = 'lib_trainer/detection_rules/alpha_detection.py'
 MW = 'lib_trainer/detection_rules/multiword_detector.py'
@@ -20,7 +21,7 @@ def score_frame(repo):
 
 PROP = Prop(
     'C13', 'A non-zero score is a promise the guesser keeps',
-    functions=[ol.SC + '.parse'],
+    functions=[ol.SC + '.parse', (sc.PS + '.parse', sc.install)],
     lemmas=lambda: ol.oks_mono.lemmas(),
     effects=score_frame,
     level='other',
@@ -32,11 +33,15 @@ PROP = Prop(
                      clause='score p > 0 => the exact string is emitted by the guesser from a pre-terminal of probability p (relative 1e-9); e-mail / website => probability 0; '
                             'scoring twice and with a freshly loaded scorer gives the same result')],
     assumptions=[
-        'PCFGPasswordScorer.parse itself (seven table-lookup loops behind one try/except, detectors shared with the trainer) is not under a functional contract: '
-        'the promise "non-zero => emitted with that probability" is decided only within the bounds of C13.bounded.score',
+        'that the segments and the structure the scorer multiplies are a pre-terminal the guesser emits with the same product (same tables after loading, '
+        'same segmentation) is decided only within the bounds of C13.bounded.score; the detectors are the trainer\'s (contracts discharged under C05; keyboard walks, '
+        'multi-word splitting and the list loop of alpha_detection trusted)',
         'the read-only frame tracks local aliases flow-insensitively and is closed under the calls listed; the detector functions update only their own section list',
     ],
-    explanation='Deductive: OmenScorer.parse returns the level sum or -1 (C11.scorer) and, by the frame obligations C13.score.readonly.frame.* (AST, all paths), neither it nor '
+    explanation='Deductive: PCFGPasswordScorer.parse classifies an input in which the e-mail (else the website) detector finds something as e (w) with probability 0, gives an '
+                'unsupported structure 0, returns as score exactly the left-to-right product of the table entries of every detected segment and of the base structure '
+                '(0 as soon as one is missing), gives category p only to a score above the limit or an OMEN level within the maximum, and updates no field of the scorer. '
+                'OmenScorer.parse returns the level sum or -1 (C11.scorer) and, by the frame obligations C13.score.readonly.frame.* (AST, all paths), neither it nor '
                 'PCFGPasswordScorer.parse nor the multi-word detector they consult update the scorer, so a score is a function of the string and the loaded ruleset. '
                 'Bounded: non-zero scores against the real guesser. Known finding F15 (letters without a one-to-one case mapping).',
 )
